@@ -1,6 +1,6 @@
 (* C06/Props.v — property-level theorems only. Tags [FULL]/[PARTIAL]/[REFUTED] are read by bin/check. *)
 From Coq Require Import List NArith ZArith.
-From BLB Require Import Lib.CRC Lib.CRCProofs C06.Model C06.Spec C06.Proofs C06.ProofsRefuted C06.ProofsRecover C06.ProofsCrash C06.ProofsCache C06.ProofsTrim C06.ProofsBurst.
+From BLB Require Import Lib.CRC Lib.CRCProofs C06.Model C06.Spec C06.Proofs C06.ProofsRefuted C06.ProofsRecover C06.ProofsCrash C06.ProofsCache C06.ProofsTrim C06.ProofsBurst C06.ProofsRefine C06.ProofsCacheFs C06.ProofsEntry.
 Import ListNotations.
 Open Scope N_scope.
 
@@ -88,18 +88,50 @@ Theorem wal_crash_atomic :
 Proof. exact crash_atomic_all. Qed.
 Print Assumptions wal_crash_atomic.
 
-(* [PARTIAL] refinement of the abstract log without crashes, repaired code: after every scenario of Appends,
-   Truncates, Trims and reopens the live log iterates exactly the oracle's records from position 0 with their
-   bytes, FirstID and LastID are the ends of that run and a single record is accepted exactly when its id is the
-   next one. Partial because iteration is characterised from position 0 only and acceptance of a whole batch is
-   taken from the implementation's result code *)
-Theorem wal_refines_spec_partial :
-  forall (maxsz : N) (ops : list wal_op),
-    0 < maxsz -> Forall valid_op ops ->
+(* [FULL] refinement of the abstract gap-free log without crashes, repaired code: for every roll threshold above 0,
+   after every sequence of Appends, Truncates, Trims and reopens following the creation of the log, FirstID and
+   LastID are the ends of the abstract log, iteration from ANY start position returns exactly the abstract records
+   with id at or above it with their bytes, and for every next operation the result code and the new abstract
+   state are those of the abstract log: Append is accepted exactly when the batch is consecutive and continues the
+   log or the log is empty, a rejected batch changes nothing, Truncate keeps exactly the ids up to k, and Trim is
+   the documented relation, it discards some prefix of records with ids at most the hint and never empties a
+   non-empty log. Records up to MaxRecordDataLen, ids below 2^64 - 1 *)
+Theorem wal_refines_spec :
+  forall (maxsz : N) (ops : list wal_op) (op : wal_op),
+    0 < maxsz -> Forall valid_op ops -> valid_op op ->
     let lv := run_ops repaired maxsz (OReopen :: ops) in
-    exists l, lv_log lv = Some l /\ observables_ok l (lv_fs lv) (lv_acked lv).
-Proof. exact live_observables_all. Qed.
-Print Assumptions wal_refines_spec_partial.
+    let acked := lv_acked lv in
+    exists l, lv_log lv = Some l /\
+      first_id l = first_of acked /\ last_id l = last_of acked /\
+      (forall start, log_iterate repaired l (lv_fs lv) start
+                     = (0%Z, map with_csum (filter (fun r => start <=? rid r) acked))) /\
+      fst (fst (fst (op_run repaired maxsz lv op))) = spec_rc acked op /\
+      spec_step acked op (lv_acked (step_live repaired maxsz lv op)).
+Proof. exact refines_spec. Qed.
+Print Assumptions wal_refines_spec.
+
+(* [FULL] cache transparency over the file-system log, repaired code: for every capacity of at least 1 and every
+   roll threshold above 0, after every sequence of operations on walCache over the fs log in which every Append is
+   accepted -- a run ends at the first Append error as raft stops there -- iteration through the cache from any
+   start position returns exactly what the underlying fs log returns. Obtained by composing wal_refines_spec with
+   the cache invariant through the abstract log *)
+Theorem wal_cache_transparent_fs :
+  forall (maxsz : N), 0 < maxsz ->
+  forall (cap : N) (ops : list wal_op) (c : cache) (lv : live),
+    0 < cap -> Forall valid_op ops ->
+    cfs_run maxsz (cache_new cap, run_ops repaired maxsz [OReopen]) ops = Some (c, lv) ->
+    exists l, lv_log lv = Some l /\
+      forall start, c_iterate repaired (Some c) (UFs l) (lv_fs lv) start = u_iterate repaired (UFs l) (lv_fs lv) start.
+Proof. exact cache_transparent_fs. Qed.
+Print Assumptions wal_cache_transparent_fs.
+
+(* [FULL] raft entry codec round trip, raft/log.go: for every type byte, every term below 2^64 and every command,
+   deserializeEntry applied to serializeEntry of the entry returns the entry -- format byte 0x80, type, uvarint
+   term of 1 to 10 bytes, command -- in particular Uvarint reads back what PutUvarint wrote *)
+Theorem entry_codec_roundtrip :
+  forall e, e_term e < 2 ^ 64 -> deserialize_entry (serialize_entry e) = (0%Z, e).
+Proof. exact entry_roundtrip. Qed.
+Print Assumptions entry_codec_roundtrip.
 
 (* [FULL] cache transparency over the reference log: for every capacity of at least 1 and every sequence of
    Append batches that are accepted, Truncates and Trims starting from an empty log, iteration through walCache from
@@ -128,3 +160,26 @@ Theorem wal_burst_detected :
     parse_one (idb' ++ le32 (blen (rdata r)) ++ d' ++ cf' ++ rest) = PCorrupt.
 Proof. exact burst_detected. Qed.
 Print Assumptions wal_burst_detected.
+
+(* [FULL] sync discipline of the repaired code, the part of power-loss safety that the property's quantifier -- every
+   prefix of the last unsynced write -- depends on: in every reachable state an acknowledged non-empty Append
+   performs exactly, in this order, an optional create of a new file followed by a directory sync, one write per
+   record into one file, and an fsync of that file, so no acknowledged byte is left unsynced. Trim and the
+   deletions of Truncate are unlinks each followed by a directory sync, Truncate ends with at most one ftruncate,
+   and reopening a live log mutates nothing. The mutation traces of the real code are compared with these on
+   every run, and the harness judges the states in which unsynced bytes vanish *)
+Theorem wal_sync_discipline :
+  forall (maxsz : N) (ops : list wal_op) (op : wal_op),
+    0 < maxsz -> Forall valid_op ops -> valid_op op ->
+    let lv := run_ops repaired maxsz (OReopen :: ops) in
+    let '(rc, _, _, ms) := op_run repaired maxsz lv op in
+    match op with
+    | OAppend recs =>
+      rc = 0%Z -> recs <> [] ->
+      exists s pre, ms = pre ++ map (wr s) recs ++ [MSync s] /\ (pre = [] \/ pre = [MCreate s; MDirSync])
+    | OTrim _ => dir_ops_synced ms
+    | OTruncate _ => exists U T, ms = U ++ T /\ dir_ops_synced U /\ (T = [] \/ exists s o, T = [MTruncate s o])
+    | OReopen => ms = []
+    end.
+Proof. exact sync_discipline. Qed.
+Print Assumptions wal_sync_discipline.
